@@ -255,25 +255,32 @@ class _AsyncioReadWriteLock(ReadWriteLock):
     def subsystem(self) -> str:
         return 'asyncio'
 
-    async def _acquire_read(self) -> bool:
+    async def _acquire_read(self) -> None:
         async with self._read_lock:
             self._counter += 1
-            return self._counter == 1
+            if self._counter == 1:
+                # The first reader takes the write lock while still holding
+                # the read mutex, so later readers queue behind it instead
+                # of walking in while a writer is active.
+                try:
+                    await self._write_lock.acquire()
+                except BaseException:
+                    self._counter -= 1
+                    raise
 
-    async def _release_read(self) -> bool:
+    async def _release_read(self) -> None:
         async with self._read_lock:
             self._counter -= 1
-            return self._counter == 0
+            if self._counter == 0:
+                self._write_lock.release()
 
     @asynccontextmanager
     async def read_lock(self) -> AsyncIterator[None]:
-        if await self._acquire_read():
-            await self._write_lock.acquire()
+        await self._acquire_read()
         try:
             yield
         finally:
-            if await self._release_read():
-                self._write_lock.release()
+            await self._release_read()
 
     @asynccontextmanager
     async def write_lock(self) -> AsyncIterator[None]:
